@@ -147,7 +147,15 @@ class QueueWorld:
             item = (i, j)
             if p.get("falsy"):
                 item = [None, 0, "", (), False][(i + j) % 5]  # sentinels and other falsy items are items too
-            await self.q.put(item)
+            if p.get("nowait"):
+                try:
+                    self.q.put_nowait(item)
+                except asyncio.QueueFull:
+                    self.ev("put_rejected", i, j)
+                    self.sit["put_nowait_rejected"] += 1
+                    continue  # the item was refused: it is not in the queue and nobody will ever process it
+            else:
+                await self.q.put(item)
             self.puts += 1
             self.ev("put", i, j)
             self.balance_event()
@@ -299,7 +307,7 @@ def gen_scenario(rng: random.Random):
     nprod = rng.choice([1, 1, 2, 3])
     ncons = rng.choice([1, 2, 2, 3])
     sc = {"maxsize": rng.choice([0, 0, 1, 2]),
-          "producers": [{"items": rng.randint(0, 4), "gap": rng.randint(0, 3), "falsy": rng.random() < 0.3} for _ in range(nprod)],
+          "producers": [{"items": rng.randint(0, 5), "gap": rng.randint(0, 3), "falsy": rng.random() < 0.3, "nowait": rng.random() < 0.3} for _ in range(nprod)],
           "consumers": [], "steps": []}
     for _ in range(ncons):
         bodies = []
@@ -343,6 +351,7 @@ BASES = [
     {"maxsize": 0, "producers": [{"items": 1, "gap": 4}], "consumers": [{"rounds": 1, "bodies": [{"y": 2}]}, {"rounds": 1, "bodies": [{"y": 1}]}], "steps": [["join"]]},
     {"maxsize": 0, "producers": [{"items": 3, "gap": 2}], "consumers": [{"rounds": 3, "bodies": [{"y": 1, "selfcancel": True}, {"y": 1}]}], "steps": [["y", 4], ["join"], ["put", 1]]},
     {"maxsize": 0, "producers": [{"items": 5, "gap": 1, "falsy": True}], "consumers": [{"rounds": 3, "bodies": [{"y": 1}]}, {"rounds": 2, "bodies": [{"y": 0}]}], "steps": [["y", 3], ["join"]]},
+    {"maxsize": 2, "producers": [{"items": 5, "gap": 0, "nowait": True}], "consumers": [{"rounds": 2, "bodies": [{"y": 2}]}, {"rounds": 1, "bodies": [{"y": 1}]}], "steps": [["y", 2], ["join"], ["y", 6], ["join"]]},
     {"maxsize": 0, "producers": [{"items": 4, "gap": 2}], "consumers": [{"rounds": 1, "bodies": [{"y": 1, "nested": True}]}, {"rounds": 2, "bodies": [{"y": 1}]}], "steps": [["join"], ["y", 5], ["join"]]},
 ]
 
